@@ -5,8 +5,48 @@ from rules import write_rules as wr
 def run(ctx):
     ctx.clause = ("the writer entry points return the state of the output stream; abidw and abilint use that result, "
                   "flush/close the stream and test it before any success exit")
-    ctx.rules = ["R-WRITERES/W1", "R-WRITERES/W2", "R-WRITERES/W3"]
+    ctx.rules = ["R-WRITERES/W1", "R-WRITERES/W2", "R-WRITERES/W3", "R-WRITERES/RAWBUF"]
     P = ctx.program(["src/abg-writer.cc", "tools/abidw.cc", "tools/abilint.cc"])
     wr.check_W1(ctx, P)
     wr.check_W2_W3(ctx, P)
+    check_rawbuf(ctx, P)
     ctx.assume("the C++ stream reports a failed write(2) through its state after flush()/close() (libstdc++ behaviour)")
+
+
+
+RAW = ("sputn", "sputc", "xsputn", "overflow", "pubsync", "sync", "sputbackc")
+
+
+def check_rawbuf(ctx, P):
+    """R-WRITERES/RAWBUF: W1-W3 decide the exit status from the *state* of the output stream.  The state records a failed
+    write only for output that goes through the ostream interface (operator<<, put, write, flush set badbit); a direct
+    call of the stream buffer (rdbuf()->sputn / sputc / pubsync ...) reports failure through its return value alone.  In the
+    writer and in the two tools every such call has its result used; today there is none (all output is formatted
+    insertion), which the instance count of insertions documents."""
+    from engine.facts import walk, call_args, member_call_object, expr_str
+    from rules.null_rules import short
+    n_ins = n_raw = 0
+    for f in sorted(P.all_funcs(), key=lambda x: (x.file, x.l0)):
+        if f.dep or not (f.relfile.startswith("src/abg-writer") or f.relfile in ("tools/abidw.cc", "tools/abilint.cc")):
+            continue
+        for x in f.nodes():
+            if x["k"] == "CXXOperatorCallExpr" and x.get("op") == "<<":
+                n_ins += 1
+            if x["k"] == "CXXMemberCallExpr" and (f.decl(x) or {}).get("n") in RAW and \
+                    "streambuf" in ((f.decl(x) or {}).get("q") or (f.decl(x) or {}).get("cls") or ""):
+                n_raw += 1
+                ctx.analysed(f)
+                p = f.parent(x)
+                while p is not None and p["k"] in ("ImplicitCastExpr", "ParenExpr", "ExprWithCleanups"):
+                    p = f.parent(p)
+                used = p is not None and p["k"] not in ("CompoundStmt", "WhileStmt", "ForStmt", "DoStmt", "IfStmt", "FunctionBody",
+                                                        "CaseStmt", "DefaultStmt", "LabelStmt") or \
+                    (p is not None and p["k"] in ("IfStmt", "WhileStmt") and p["c"][0] is not None and any(y is x for y in walk(p["c"][0])))
+                k = sum(1 for o in ctx.obligations if o["rule"] == "R-WRITERES/RAWBUF" and o["entity"].startswith(short(f) + ":"))
+                ctx.ob("R-WRITERES/RAWBUF", "%s: the result of %s() #%d is looked at" % (short(f), (f.decl(x) or {}).get("n"), k + 1), used, f.loc(x),
+                       "used" if used else
+                       "`%s` writes into the stream buffer behind the stream's back and drops the only indication of failure: a "
+                       "failed write(2) leaves good() true and the tool exits 0 on truncated output" % expr_str(f, x)[:70])
+    ctx.ob("R-WRITERES/RAWBUF", "output of the writer and the tools goes through the ostream interface", True, "",
+           "%d formatted insertions, %d direct stream-buffer calls" % (n_ins, n_raw))
+    ctx.floor("R-WRITERES/RAWBUF", "formatted insertions in the writer and the tools", n_ins, 400)
